@@ -178,7 +178,26 @@ plain!(Vec<u8>, "Vec<u8>", |v| s_of(v).into_bytes(), |v| s_len(v));
 plain!(Option<u32>, "Option<u32>", |v| if v % 3 == 0 { None } else { Some(v as u32) }, |v| if v % 3 == 0 { 0 } else { 4 });
 plain!(Result<u8, String>, "Result<u8,String>", |v| if v % 2 == 0 { Ok(v as u8) } else { Err(s_of(v)) }, |v| if v % 2 == 0 { 1 } else { s_len(v) });
 plain!(Box<u64>, "Box<u64>", |v| Box::new(v), |_v| 8);
-plain!(VecDeque<u16>, "VecDeque<u16>", |v| (0..(v % 9)).map(|i| i as u16).collect(), |v| 2 * (v % 9) as usize);
+fn deque_of(v: u64) -> VecDeque<u16> {
+    // built with push_back / push_front and (for some values) FIFO use, so that the ring buffer wraps around
+    let mut d: VecDeque<u16> = VecDeque::with_capacity(4);
+    for i in 0..(v % 9) {
+        if (v >> i) & 1 == 0 {
+            d.push_back(i as u16);
+        } else {
+            d.push_front(i as u16);
+        }
+    }
+    if v % 3 == 0 {
+        for k in 0..(v % 7) {
+            if let Some(x) = d.pop_front() {
+                d.push_back(x.wrapping_add(k as u16));
+            }
+        }
+    }
+    d
+}
+plain!(VecDeque<u16>, "VecDeque<u16>", |v| deque_of(v), |v| 2 * (v % 9) as usize);
 plain!(BTreeMap<u8, u32>, "BTreeMap<u8,u32>", |v| (0..(v % 6)).map(|i| (i as u8, v as u32)).collect(), |v| 5 * (v % 6) as usize);
 plain!((), "()", |_v| (), |_v| 0);
 plain!(TwinA, "TwinA(u32)", |v| TwinA(v as u32), |_v| 4);
@@ -629,7 +648,7 @@ pub fn channel_charge(rng: &mut Rng) -> (Vec<Finding>, u64) {
 pub fn cmd(args: &Args) -> Report {
     let mut rep = Report::new("C16");
     let mut rng = Rng::new(args.stream_seed("c16"));
-    let cases = args.cases(160_000, 3_000_000);
+    let cases = args.cases(4_000_000, 36_000_000);
     let max_len = args.extra_u64("len").unwrap_or(60) as usize;
     let mut obs = Obs::default();
     for i in 0..cases {
